@@ -676,6 +676,26 @@ def _dedupe(ctx, visitor, rel):
                                      f"on those entries (same-named associations between other asset types) are "
                                      f"merged into one"),
                                 file=rel, line=t.lineno, props=PROPS))
+    # the same with the key taken directly in the test: `item["name"] not in known` (in an if or a comprehension filter)
+    for t in own_nodes(f.node):
+        if isinstance(t, ast.Compare) and len(t.ops) == 1 and isinstance(t.ops[0], (ast.In, ast.NotIn)):
+            used = set()
+            for s_ in ast.walk(t.left):
+                if isinstance(s_, ast.Subscript) and isinstance(s_.value, ast.Name) and isinstance(s_.slice, ast.Constant) \
+                        and isinstance(s_.slice.value, str):
+                    used.add(s_.slice.value)
+                if isinstance(s_, ast.Call) and isinstance(s_.func, ast.Attribute) and s_.func.attr == 'get' \
+                        and isinstance(s_.func.value, ast.Name) and s_.args and isinstance(s_.args[0], ast.Constant):
+                    used.add(s_.args[0].value)
+            if used and used < full and used & full:
+                found = True
+                out.append(Inst(
+                    RULE, f.short, construct, 'violation',
+                    msg=(f"'{stmt_text(t)}' identifies a declaration by {sorted(used)} only, a declaration "
+                         f"also carries {sorted(full - used)[:6]}...: two different declarations that agree "
+                         f"on those entries (same-named associations between other asset types) are "
+                         f"merged into one"),
+                    file=rel, line=t.lineno, props=PROPS))
     if not found:
         out.append(Inst(RULE, f.short, construct, 'unproven', msg='de-duplication idiom not recognised', file=rel,
                         line=f.node.lineno, props=PROPS))
